@@ -1,0 +1,120 @@
+//! Verification hooks. Compiled only with `--cfg rumqtt_verif`; nothing in here is used by
+//! the broker itself. Re-exports crate-private types and offers single-threaded stepping of
+//! the router so that an external harness can drive and observe it deterministically.
+use std::collections::VecDeque;
+use std::sync::Arc;
+
+use bytes::Bytes;
+use flume::{Receiver, Sender};
+use parking_lot::Mutex;
+
+pub use crate::link::local::{LinkBuilder, LinkError, LinkRx, LinkTx};
+pub use crate::link::network::{Network, N};
+pub use crate::link::remote::{mqtt_connect, RemoteLink};
+pub use crate::router::iobufs::{Incoming, Outgoing};
+pub use crate::router::{Ack, Connection, DataRequest, Event, Forward, Notification, ShadowRequest};
+pub use crate::segments::{CommitLog, Position, Storage};
+pub use crate::server::{verif_remote as remote, VerifWillHandlers as WillHandlers};
+
+use crate::protocol::{LastWill, LastWillProperties, Packet, Publish, QoS};
+use crate::ConnectionId;
+
+/// `protocol::Publish` keeps dup/qos/pkid crate-private
+pub fn publish(topic: &[u8], payload: &[u8], qos: u8, pkid: u16, retain: bool, dup: bool) -> Publish {
+    Publish {
+        dup,
+        qos: crate::protocol::qos(qos).unwrap_or(QoS::AtMostOnce),
+        pkid,
+        retain,
+        topic: Bytes::copy_from_slice(topic),
+        payload: Bytes::copy_from_slice(payload),
+    }
+}
+
+/// (dup, qos, pkid)
+pub fn publish_parts(p: &Publish) -> (bool, u8, u16) {
+    (p.dup, p.qos as u8, p.pkid)
+}
+
+/// First half of `LinkBuilder::build`: the connect event is queued but nobody blocks
+pub struct PendingLink {
+    router_tx: Sender<(ConnectionId, Event)>,
+    link_rx: Receiver<()>,
+    outgoing: Arc<Mutex<VecDeque<Notification>>>,
+    incoming: Arc<Mutex<VecDeque<Packet>>>,
+}
+
+pub struct LinkOptions {
+    pub client_id: String,
+    pub clean: bool,
+    pub last_will: Option<LastWill>,
+    pub last_will_properties: Option<LastWillProperties>,
+    pub dynamic_filters: bool,
+    pub topic_alias_max: u16,
+}
+
+pub fn begin_link(router_tx: Sender<(ConnectionId, Event)>, o: LinkOptions) -> Option<PendingLink> {
+    let mut connection = Connection::new(None, o.client_id, o.clean, o.dynamic_filters);
+    connection
+        .last_will(o.last_will, o.last_will_properties)
+        .topic_alias_max(o.topic_alias_max);
+    let incoming = Incoming::new(connection.client_id.to_owned());
+    let (outgoing, link_rx) = Outgoing::new(connection.client_id.to_owned());
+    let pending = PendingLink {
+        router_tx: router_tx.clone(),
+        link_rx,
+        outgoing: outgoing.buffer(),
+        incoming: incoming.buffer(),
+    };
+    let event = Event::Connect {
+        connection,
+        incoming,
+        outgoing,
+    };
+    router_tx.try_send((0, event)).ok()?;
+    Some(pending)
+}
+
+pub enum Finish {
+    /// the router accepted the connection: link halves and the CONNACK notification
+    Up(LinkTx, LinkRx, Notification),
+    /// the router dropped the connect event (doorbell closed)
+    Dropped,
+    /// the router has not handled the event / flushed the CONNACK yet
+    NotYet(PendingLink),
+}
+
+impl PendingLink {
+    pub fn finish(self) -> Finish {
+        match self.link_rx.try_recv() {
+            Ok(()) => {}
+            Err(flume::TryRecvError::Empty) => return Finish::NotYet(self),
+            Err(flume::TryRecvError::Disconnected) => return Finish::Dropped,
+        }
+        let first = self.outgoing.lock().pop_front();
+        let notification = match first {
+            Some(n) => n,
+            None => return Finish::NotYet(self),
+        };
+        let id = match &notification {
+            Notification::DeviceAck(Ack::ConnAck(id, ..)) => *id,
+            _ => return Finish::Dropped,
+        };
+        let tx = LinkTx::new(id, self.router_tx.clone(), self.incoming);
+        let rx = LinkRx::new(id, self.router_tx, self.link_rx, self.outgoing);
+        Finish::Up(tx, rx, notification)
+    }
+}
+
+/// What `RemoteLink::start` does after pushing packets into the link buffer, without blocking
+pub fn notify(router_tx: &Sender<(ConnectionId, Event)>, id: ConnectionId) -> bool {
+    router_tx.try_send((id, Event::DeviceData)).is_ok()
+}
+
+pub fn send_event(router_tx: &Sender<(ConnectionId, Event)>, id: ConnectionId, e: Event) -> bool {
+    router_tx.try_send((id, e)).is_ok()
+}
+
+pub const MAX_INFLIGHT: usize = crate::router::iobufs::VERIF_MAX_INFLIGHT;
+pub const MAX_CHANNEL_CAPACITY: usize = crate::router::MAX_CHANNEL_CAPACITY;
+pub const MAX_SCHEDULE_ITERATIONS: usize = crate::router::MAX_SCHEDULE_ITERATIONS;
